@@ -133,6 +133,10 @@ class IfWriteHandler(AbstractWriteHandler):
 
     def _if_header_for(self, op: SsbOperation) -> str:
         # TODO: More error checking for parameters would probably be a good idea
+        for param in op.params:
+            # Strings print over several lines: indent them like the header, not like whatever printed them last.
+            if hasattr(param, "indent"):
+                param.indent = self.decompiler.indent
         if op.op_code.name == "Branch":
             return f"{op.params[0]} {SsbOperator.EQ.notation} {op.params[1]}"
         if op.op_code.name == "BranchBit":
